@@ -365,6 +365,40 @@ let run_iter (src : string) : string =
         "OK ids[%s] vars[%s] reads[%s] writes[%s] fns[%s] nodes[%s] ops[%s] idsm[%s] varsm[%s] readsm[%s] writesm[%s] fnsm[%s] renamed%s"
         a b c d e nodes nodes a b c d e (tree_text n5)
 
+let fmt_oracle : M.fmt_oracle =
+  { M.fo_float_display = (fun x -> str_of_hex (oracle_ask ("fts " ^ float_hex x)));
+    M.fo_float_debug = (fun x -> str_of_hex (oracle_ask ("fdbg " ^ float_hex x)));
+    M.fo_str_debug = (fun s -> str_of_hex (oracle_ask ("sdbg " ^ hex_of_str s))) }
+
+let s_of (x : string) : M.str = List.map n_of_int (decode_utf8 x)
+
+let run_show (src : string) : string =
+  let set c (k, v) = match M.set_value c (s_of k) v with M.Ok c' -> c' | _ -> c in
+  let ctx =
+    List.fold_left set M.empty_hashmap
+      [ ("a", M.VInt (z_of_i64 3L)); ("b", M.VFloat (float_of_hex "4004000000000000")); ("c", M.VString (s_of "x\"y"));
+        ("y", M.VTuple [ M.VInt (z_of_i64 1L); M.VFloat (float_of_hex "7e37e43c8800759c"); M.VString (s_of "\xc3\xa4\n"); M.VEmpty; M.VBool true ]) ]
+  in
+  let s = str_of_hex src in
+  let tree =
+    match M.build_operator_tree s with
+    | M.Ok n -> "T:" ^ hex_of_str (M.node_fmt fmt_oracle n)
+    | M.Err e -> "TE:" ^ hex_of_str (M.error_fmt fmt_oracle e)
+    | M.Panic p -> raise (Model_panic (int_of_n p))
+  in
+  let res =
+    match M.build_operator_tree s with
+    | M.Err e -> "E:" ^ hex_of_str (M.error_fmt fmt_oracle e)
+    | M.Panic p -> raise (Model_panic (int_of_n p))
+    | M.Ok n -> (
+        let (r, _), _ = M.eval_mut oracle n ctx [] in
+        match r with
+        | M.Ok v -> "V:" ^ hex_of_str (M.value_fmt fmt_oracle v) ^ " D:" ^ hex_of_str (M.value_debug fmt_oracle v)
+        | M.Err e -> "E:" ^ hex_of_str (M.error_fmt fmt_oracle e)
+        | M.Panic p -> raise (Model_panic (int_of_n p)))
+  in
+  tree ^ " " ^ res
+
 let run_case (line : string) : string =
   match split_on '\t' line with
   | id :: kind :: rest -> (
@@ -379,6 +413,8 @@ let run_case (line : string) : string =
           | "SCRIPT", [ k ] -> run_script k ""
           | "ITER", [ src ] -> run_iter src
           | "ITER", [] -> run_iter ""
+          | "SHOW", [ src ] -> run_show src
+          | "SHOW", [] -> run_show ""
           | _ -> failwith ("bad case " ^ line)
         with Model_panic s -> "PANIC model-site-" ^ string_of_int s
       in
